@@ -589,6 +589,43 @@ impl<'a> Gen<'a> {
                     Expr::Bin(op, l, r)
                 },
             },
+            Ty::Bool if !descending && self.rng.percent(8) => {
+                // comparisons (and their negations) with operands that may be NaN, an infinity or
+                // a signed zero: `!(x < y)` is not `x >= y`, `v != v` is the NaN test
+                let nanish = |g: &mut Self| -> Expr {
+                    let floats: Vec<String> = g
+                        .tenv
+                        .iter()
+                        .filter(|(_, t)| **t == Ty::Float)
+                        .map(|(n, _)| n.clone())
+                        .collect();
+                    match g.rng.below(4) {
+                        0 if !floats.is_empty() => Expr::Read(g.rng.pick(&floats).clone()),
+                        1 => Expr::Bin(
+                            Bin::Div,
+                            Box::new(Expr::Lit(Value::Float(0.0))),
+                            Box::new(Expr::Lit(Value::Float(0.0))),
+                        ),
+                        2 => Expr::Bin(
+                            Bin::Div,
+                            Box::new(Expr::Lit(Value::Float(1.5))),
+                            Box::new(Expr::Lit(Value::Float(0.0))),
+                        ),
+                        _ => g.lit(Ty::Float),
+                    }
+                };
+                let l = nanish(self);
+                let r = if self.rng.percent(30) { l.clone() } else { nanish(self) };
+                let op = *self
+                    .rng
+                    .pick(&[Bin::Lt, Bin::Gt, Bin::Leq, Bin::Geq, Bin::Eq, Bin::Neq]);
+                let cmp = Expr::Bin(op, Box::new(l), Box::new(r));
+                if self.rng.percent(50) {
+                    Expr::Un(Un::Not, Box::new(cmp))
+                } else {
+                    cmp
+                }
+            },
             Ty::Bool => match self.rng.below(10) {
                 0..=3 => {
                     let op = if self.rng.percent(50) { Bin::And } else { Bin::Or };
